@@ -1354,3 +1354,44 @@ Section Reachable.
     split; [exact HK|]. intro t. apply (selective_exact vpos); [apply reachable_inv | exact HK].
   Qed.
 End Reachable.
+
+(* ------------------------------------------------------------------------------------ *)
+(* routing reads the key of a delta only: relabelling payload / source_replica of the
+   deltas (any [g] that keeps keys) relabels the routed copies and changes nothing else -
+   in particular the excluded node is the sender, whatever replica a delta originated on *)
+
+Section OriginIndependence.
+  Variable kpos : list N -> N.
+
+  Definition tbl_map (g : list N * (N * N) -> list N * (N * N))
+             (tbl : list (N * list (list N * (N * N)))) : list (N * list (list N * (N * N))) :=
+    map (fun p => (fst p, map g (snd p))) tbl.
+
+  Lemma tbl_push_map : forall g t d tbl,
+    tbl_push t (g d) (tbl_map g tbl) = tbl_map g (tbl_push t d tbl).
+  Proof.
+    intros g t d. induction tbl as [|[k ds] r IH]; [reflexivity|].
+    cbn [tbl_map map fst snd tbl_push]. destruct (k =? t).
+    - cbn [map fst snd]. rewrite map_app. reflexivity.
+    - cbn [map fst snd]. f_equal. exact IH.
+  Qed.
+
+  Lemma fold_targets_map : forall g (P : N -> bool) d ts tbl,
+    fold_left (fun tbl t => if P t then tbl_push t (g d) tbl else tbl) ts (tbl_map g tbl) =
+    tbl_map g (fold_left (fun tbl t => if P t then tbl_push t d tbl else tbl) ts tbl).
+  Proof.
+    intros g P d. induction ts as [|a ts IH]; intro tbl; [reflexivity|].
+    cbn [fold_left]. destruct (P a); [rewrite tbl_push_map|]; apply IH.
+  Qed.
+
+  Theorem route_independent_of_origin : forall g r os deltas,
+    (forall d, d_key (g d) = d_key d) ->
+    route_selective kpos r os (map g deltas) = tbl_map g (route_selective kpos r os deltas).
+  Proof.
+    intros g r os deltas Hg. unfold route_selective.
+    change (@nil (N * list (list N * (N * N)))) with (tbl_map g []) at 1.
+    generalize (@nil (N * list (list N * (N * N)))).
+    induction deltas as [|d ds IH]; intro tbl; [reflexivity|].
+    cbn [map fold_left]. rewrite Hg, fold_targets_map. apply IH.
+  Qed.
+End OriginIndependence.
